@@ -173,6 +173,13 @@ fn main() {
                 None => legs::c17::run(seed, args.thorough(), shards),
             }
         }
+        "c18-schema" => {
+            guard::start_watchdog("c18-schema", std::time::Duration::from_secs(120));
+            match &replay_value {
+                Some(v) => legs::c18schema::replay(v, &scratch),
+                None => legs::c18schema::run(seed, args.thorough(), shards, &scratch),
+            }
+        }
         "c19" => {
             guard::start_watchdog("c19", std::time::Duration::from_secs(120));
             match &replay_value {
